@@ -252,7 +252,7 @@ func famEval() {
 	case "C03":
 		gc.Failing = true
 	case "C10":
-		gc.Failing, gc.H, gc.ConstBias = true, true, 65
+		gc.Failing, gc.H, gc.ConstBias, gc.WrongBool = true, true, 65, true
 	}
 	var trees []*Tree
 	if *fCases != "" {
@@ -273,15 +273,20 @@ func famEval() {
 		trees = append(trees, nl...)
 	}
 	g := &gen{r: r, c: gc}
+	illTyped := map[*Tree]bool{}
 	for i := 0; i < *fN; i++ {
 		typ := "b"
 		if r.Intn(4) == 0 {
 			typ = "i"
 		}
+		before := g.illTyped
 		t, _ := g.tree(typ, 1+r.Intn(*fDepth))
 		if len(t.Kids) == 0 {
 			i--
 			continue
+		}
+		if g.illTyped > before {
+			illTyped[t] = true
 		}
 		trees = append(trees, t)
 	}
@@ -295,7 +300,7 @@ func famEval() {
 		}
 		seen[src] = true
 		id++
-		rec := M{"fam": "eval", "for": prop, "id": id, "src": src, "tree": t}
+		rec := M{"fam": "eval", "for": prop, "id": id, "src": src, "tree": t, "illtyped": illTyped[t]}
 		// bindings
 		var envs []Env
 		if id%3 == 0 {
@@ -341,9 +346,11 @@ func famEval() {
 			for k := 0; k < 4; k++ {
 				vs = append(vs, ConfOpts{Mask: 8 | r.Intn(8), Costs: costMaps[1+r.Intn(len(costMaps)-1)]})
 			}
+			// undefined-variable mode: every variable carries the same (undefined) key
+			vs = append(vs, ConfOpts{Mask: 4 | r.Intn(16), Undefined: true}, ConfOpts{Mask: r.Intn(16), Undefined: true})
 		case "C03":
 			vs = []ConfOpts{{Mask: 0}, {Mask: 15}, {Mask: r.Intn(16)}, {Mask: r.Intn(16)},
-				{Mask: 8 | r.Intn(8), Costs: costMaps[1+r.Intn(len(costMaps)-1)]}}
+				{Mask: 8 | r.Intn(8), Costs: costMaps[1+r.Intn(len(costMaps)-1)]}, {Mask: 4 | r.Intn(16), Undefined: true}}
 		case "C10":
 			vs = []ConfOpts{{Mask: 15}, {Mask: 1}, {Mask: r.Intn(16) | 1}, {Mask: r.Intn(16)}, {Mask: 1, How: "dir"}}
 		default:
